@@ -1809,7 +1809,12 @@ def compose_stream(ctx, cirq, n):
                     ctx.mark_broken('correspondence:compose', f'{dict(r1)} then {dict(r2)}: composed {got}')
                 break
         else:
-            if not explained:
+            if not explained and reintroduces(r1, r2):
+                # the law holds on every bound symbol, yet the merged dictionary is cyclic for the model: the cycle runs through a
+                # function head that sympy's simplifier collapses (Abs(Abs(b)) = Abs(b)); outside the model, judged by the law only
+                d = ctx.cov.setdefault('distribution', {}).setdefault('compose', {})
+                d['outside_model_judged_by_law'] = d.get('outside_model_judged_by_law', 0) + 1
+            elif not explained:
                 ctx.mark_broken('correspondence:compose', f'model and implementation differ on the composition of {dict(r1)} and {dict(r2)}: implementation {got}')
 
 
